@@ -2177,18 +2177,27 @@ fn build_vp09_box(video: &Mp4VideoTrack, vp9_config: &Vp9Config) -> Vec<u8> {
 ///
 /// Based on VP9 Codec ISO Media File Format Binding specification.
 fn build_vpcc_box(vp9_config: &Vp9Config) -> Vec<u8> {
-    let payload = vec![
-        1,                              // Version (1 byte) - set to 1
-        vp9_config.profile,             // Profile (1 byte)
-        vp9_config.level,               // Level (1 byte)
-        vp9_config.bit_depth,           // Bit depth (1 byte)
-        vp9_config.color_space,         // Color space (1 byte)
-        vp9_config.transfer_function,   // Transfer function (1 byte)
-        vp9_config.matrix_coefficients, // Matrix coefficients (1 byte)
-        vp9_config.full_range_flag,     // Video full range flag (1 byte)
-    ];
+    build_box(b"vpcC", &vpcc_payload(vp9_config))
+}
 
-    build_box(b"vpcC", &payload)
+/// VPCodecConfigurationBox payload (VP Codec ISO Media File Format Binding v1.0):
+/// FullBox header (version 1, flags 0) followed by the 8-byte configuration record.
+pub(crate) fn vpcc_payload(vp9_config: &Vp9Config) -> Vec<u8> {
+    // chromaSubsampling is not carried by Vp9Config: profiles 0 and 2 are 4:2:0 only
+    // (1 = colocated with luma), profiles 1 and 3 are signalled as 4:4:4 (3).
+    let chroma_subsampling: u8 = if vp9_config.profile % 2 == 0 { 1 } else { 3 };
+    vec![
+        1, 0, 0, 0, // FullBox: version = 1, flags = 0
+        vp9_config.profile,
+        vp9_config.level,
+        ((vp9_config.bit_depth & 0x0f) << 4)
+            | (chroma_subsampling << 1)
+            | (vp9_config.full_range_flag & 0x01), // bitDepth (4) + chromaSubsampling (3) + videoFullRangeFlag (1)
+        vp9_config.color_space,         // colourPrimaries
+        vp9_config.transfer_function,   // transferCharacteristics
+        vp9_config.matrix_coefficients, // matrixCoefficients
+        0, 0, // codecInitializationDataSize (must be 0 for VP9)
+    ]
 }
 
 fn build_vmhd_box() -> Vec<u8> {
